@@ -58,7 +58,7 @@ func executeBytecodePromise(thread *Thread, queue chan *Promise, task *Promise) 
 
 	switch thread.state {
 	case awaitState:
-		awaitedPromise := (*Promise)(thread.peek().Pointer())
+		awaitedPromise := (*Promise)(thread.popGet().Pointer())
 		verifAsync("await:suspended", awaitedPromise, task, thread)
 		awaitedPromise.RegisterContinuationUnsafe(task)
 
